@@ -26,7 +26,7 @@ CASE_TIMEOUT = 180          # a LIVE history (real daemon, real grace periods) t
 CAP = 60
 KINDS = ['incr', 'decr', 'setnp', 'restart', 'reload', 'reloadseq', 'reloadterm', 'stop', 'start', 'kill',
          'extkill', 'selfexit', 'selfexit', 'sigexit', 'sigexit', 'check', 'check', 'advance', 'dieat', 'qpoint',
-         'signal_nf']
+         'signal_nf', 'rm']
 TERM_SIGS = [1, 2, 3, 6, 9, 10, 11, 12, 13, 14, 15,
              # real-time signals (no name in Python's signal module), and deaths with a core dump (bit 0x80)
              34, 35, 40, 63, 64, 3 | 0x80, 6 | 0x80, 11 | 0x80]
@@ -39,6 +39,8 @@ def gen_spec(rnd):
     for w_ in ws:
         if rnd.random() < .15:
             w_['shell'] = True               # the command goes through /bin/sh -c
+        if rnd.random() < .1:
+            w_['respawn'] = False            # when its last worker is gone the watcher stops by itself
     names = [w['name'] for w in ws]
     if rnd.random() < .2:
         # a signal hook that vetoes (false) or fails: the stop signal is withheld, the worker lives through the
@@ -48,6 +50,9 @@ def gen_spec(rnd):
     steps = []
     for _ in range(rnd.randint(1, 9)):
         k = rnd.choice(KINDS)
+        if k == 'rm':
+            steps.append(['req', 'rm', {'name': rnd.choice(names), 'waiting': rnd.random() < .5}])
+            continue
         if k == 'signal_nf':
             # a relayed signal the worker survives (WINCH, URG and CHLD are ignored by default)
             p = {'name': rnd.choice(names), 'signum': rnd.choice([28, 23, 'winch', 17, 'SIGURG'])}
@@ -249,6 +254,10 @@ def judge(w, h, res, rec, steps):
                               'watcher %s: live workers %s are not in the reconstruction' % (n, unseen), steps=steps)
         st = simhist.reported_status(w, n)
         last = rec.last_ss.get(n)
+        if st not in ('active', 'stopped', 'starting', 'stopping'):
+            # the watcher was removed (rm): nothing reports a status for it any more
+            res.obs['removed_watchers_at_a_quiescent_point'] += 1
+            last = None
         if last == 'start' and st != 'active':
             res.violation('C09/start-event-vs-status', 'last event for %s is start but status is %s' % (n, st))
         if last == 'stop' and st != 'stopped':
